@@ -234,3 +234,29 @@ fn built_distance_is_the_kernel_value() {
     assert!(e.to_bits() == unsafe { EUC_R }.to_bits());
     kani::cover!(h1[0] != 0.0 && h2[0] != 0.0);
 }
+
+
+/// Cosine::built_distance is its documented definition for every header and every dot product:
+/// (1 - clamp(pq / (pn * qn), -1, 1)) / 2 when the *product* of the stored norms exceeds f32::EPSILON,
+/// 0 otherwise (C11; a vector with a tiny norm is not a zero vector as long as the product is large).
+#[kani::proof]
+#[kani::unwind(6)]
+#[kani::stub(alloc::fmt::format, stub_format)]
+#[kani::stub(crate::spaces::simple::dot_product, uf_dot)]
+fn cosine_built_distance_definition() {
+    let vb: [u8; 8] = kani::any();
+    let wb: [u8; 8] = kani::any();
+    let v = UnalignedVector::<f32>::from_bytes_unchecked(&vb);
+    let w = UnalignedVector::<f32>::from_bytes_unchecked(&wb);
+    let pn: f32 = kani::any();
+    let qn: f32 = kani::any();
+    let lp: Leaf<Cosine> = Leaf { header: bytemuck::cast::<f32, NodeHeaderCosine>(pn), vector: Cow::Borrowed(v) };
+    let lq: Leaf<Cosine> = Leaf { header: bytemuck::cast::<f32, NodeHeaderCosine>(qn), vector: Cow::Borrowed(w) };
+    let d = Cosine::built_distance(&lp, &lq);
+    let pq = unsafe { DOT_R };
+    let pnqn = pn * qn;
+    let want = if pnqn > f32::EPSILON { (1.0 - (pq / pnqn).clamp(-1.0, 1.0)) / 2.0 } else { 0.0 };
+    assert!(d.to_bits() == want.to_bits() || (d.is_nan() && want.is_nan()));
+    kani::cover!(pnqn > f32::EPSILON && pn <= f32::EPSILON);
+    kani::cover!(pnqn <= f32::EPSILON);
+}
